@@ -209,6 +209,58 @@ theorem statsAt_tree_spec (okg : GeomOk c.geom) (m : Mem) (inv : LowerInv c m) (
     apply Runs.pure
     exact ⟨rfl, h1⟩
 
+/-- `stats_at(frame, TREE_ORDER)` for any frame of tree `i` -/
+theorem statsAt_tree_spec' (okg : GeomOk c.geom) (m : Mem) (inv : LowerInv c m) (i : Nat) (hi : i < c.ntrees) (frame : Nat)
+    (hfr : frame / c.geom.treeFrames = i) :
+    Runs m (Lower.statsAt c.geom frame c.geom.treeOrder) (fun st m' => m = m' ∧
+      st.freeFrames = m.freeInTree c.geom i) := by
+  have hTF := okg.tf_pos
+  have hHF := okg.hf_pos
+  have hTH := okg.th_pos
+  have hdiv : frame / c.geom.treeFrames = i := hfr
+  have hsz : ∀ k, k < c.geom.treeHuge → i * c.geom.treeHuge + k < m.huge.size := by
+    intro k hk
+    rw [inv.hugeSize]
+    have : (i + 1) * c.geom.treeHuge ≤ c.ntrees * c.geom.treeHuge := Nat.mul_le_mul_right _ hi
+    rw [Nat.add_mul, Nat.one_mul] at this
+    omega
+  have hE : ∀ k, k < c.geom.treeHuge → m.get? .huge (hugeIdx c.geom i k) = some (m.hugeE (i * c.geom.treeHuge + k)) := by
+    intro k hk
+    simp only [Mem.get?_huge, hugeIdx]; unfold Mem.hugeE
+    rw [Array.getElem?_eq_getElem (hsz k hk)]; rfl
+  obtain ⟨k, hk, hto⟩ := okg.treeOrder_eq
+  have hne0 : c.geom.treeOrder ≠ 0 := by have := okg.ho; omega
+  unfold Lower.statsAt
+  simp only [hdiv]
+  -- the first load (bounds check of the table)
+  have hfirst := hE 0 hTH
+  show Runs m (Prog.load .huge (hugeIdx c.geom i 0) fun _ => _) _
+  have : ∀ (body : Prog Stats) (Q : Stats → Mem → Prop), Runs m body Q →
+      Runs m (Prog.load .huge (hugeIdx c.geom i 0) fun _ => body) Q := by
+    intro body Q hb
+    obtain ⟨m', a, e, q⟩ := hb
+    exact ⟨m', a, by simp only [runSolo, hfirst]; exact e, q⟩
+  apply this
+  simp only [hne0, if_false]
+  by_cases hth : c.geom.treeOrder = c.geom.hugeOrder
+  · -- TREE_HUGE = 1: the tree is one huge frame
+    simp only [hth, if_true]
+    have hk0 : k = 0 := by omega
+    have hth1 : c.geom.treeHuge = 1 := by rw [hk, hk0]
+    have hh : frame / c.geom.hugeFrames % c.geom.treeHuge = 0 := by rw [hth1]; exact Nat.mod_one _
+    rw [hh]
+    apply Runs.bind (Runs.load (Q := fun v m' => v = m.hugeE (i * c.geom.treeHuge + 0) ∧ m = m') (hE 0 hTH) ⟨rfl, rfl⟩)
+    rintro _ _ ⟨rfl, rfl⟩
+    apply Runs.pure
+    refine ⟨rfl, ?_⟩
+    simp only
+    rw [huge_free_exact okg m inv, Mem.freeInTree_eq_blockSum, hth1, blockSum_one]
+  · simp only [hth, if_false, if_true]
+    apply Runs.bind (treeFold_spec okg m inv i hi true)
+    rintro ⟨ff, fh⟩ m' ⟨rfl, h1, _⟩
+    apply Runs.pure
+    exact ⟨rfl, h1⟩
+
 /-- free frames, entirely free huge frames and entirely free trees of the allocation state,
     over the first `n` trees -/
 def Mem.freeTotal (m : Mem) (g : Geom) (n : Nat) : Nat := blockSum (fun t => m.freeInTree g t) n
